@@ -163,10 +163,10 @@ theorem detect_wf_zip_prefix (r : Zip.Rd) (f : Zip.File) (l : Zip.Lfh) (r' : Zip
 /-! ### PE -/
 
 /-- **PE.**  Every image whose headers relic's PE reader accepts (`readHeaders`, the first step of `DigestPE`) with
-    `e_lfanew ≥ 64` is detected as PE/COFF, provided the PE signature lies within the first 4096 bytes and no earlier rule
-    pre-empts (no certTrustList / signedData OID in the first 256 bytes, no `ustar` at 257). -/
+    `64 ≤ e_lfanew < 65536` is detected as PE/COFF (since the repair of FM1; before: `e_lfanew + 4 ≤ 4096`), provided no
+    earlier rule pre-empts (no certTrustList / signedData OID in the first 256 bytes, no `ustar` at 257). -/
 theorem detect_wf_pe (f : Bytes) (h : PE.Headers) (e : PE.readHeaders f = .ok h) (h64 : 64 ≤ PE.u32 f 0x3c)
-    (hbuf : PE.u32 f 0x3c + 4 ≤ bufSize) (hc : hasCtl f = false) (hs : hasSignedData f = false) (ht : isTar f = false) :
+    (hbuf : PE.u32 f 0x3c < 65536) (hc : hasCtl f = false) (hs : hasSignedData f = false) (ht : isTar f = false) :
     detect f = .pecoff := by
   have F := PE.readHeaders_full f h h64 e
   have hsig := F.sig
@@ -184,8 +184,7 @@ theorem detect_wf_pe (f : Bytes) (h : PE.Headers) (e : PE.readHeaders f = .ok h)
     apply leVal_take2_of_small
     have : leVal ((f.drop 60).take 4) = PE.u32 f 60 := rfl
     rw [this]
-    simp only [bufSize] at hbuf
-    omega
+    exact hbuf
   rw [detect_pecoff_iff]
   refine ⟨hc, hs, ht, ?_, ?_⟩
   · rw [atPos0_iff]
@@ -194,7 +193,7 @@ theorem detect_wf_pe (f : Bytes) (h : PE.Headers) (e : PE.readHeaders f = .ok h)
     show f.take 2 = [77, 90]
     simpa [PE.seg] using this
   · rw [mzProbe_iff, hrel]
-    refine ⟨by omega, hbuf, hlen, ?_⟩
+    refine ⟨by omega, by simp only [bufSize]; omega, hlen, ?_⟩
     have : PE.seg f (PE.u32 f 60) (PE.u32 f 60 + 4) = (f.drop (PE.u32 f 60)).take 4 := by
       unfold PE.seg; congr 1; omega
     rw [← this, hsig]; rfl
@@ -229,41 +228,52 @@ theorem detect_wf_cab (f : Bytes) (d : Cab.Digest) (e : Cab.DigestCab f = .ok d)
       show f.take 4 = pCab
       rw [← this]; decide
 
-/-- **Mach-O.**  Every thin image `machos.scanFile` accepts *in little-endian byte order* is detected as Mach-O unless an
-    OID / `ustar` / `…assembly` in the first 256 bytes pre-empts it. -/
-theorem detect_wf_macho (f : Bytes) (m : MachO.Markers) (e : MachO.scan f = .ok m) (hle : MachO.readMagic f = some (false, m.magic))
+/-- **Mach-O.**  Every thin image `machos.scanFile` accepts — in either byte order, since the repair of FM3 — is detected
+    as Mach-O unless an OID / `ustar` / `…assembly` in the first 256 bytes pre-empts it. -/
+theorem detect_wf_macho (f : Bytes) (m : MachO.Markers) (e : MachO.scan f = .ok m)
     (hc : hasCtl f = false) (hs : hasSignedData f = false) (ht : isTar f = false) (ha : hasAsm f = false) : detect f = .machO := by
-  have hl : 4 ≤ f.length := by
+  have hl : 4 ≤ f.length ∧ (MachO.readMagic f).isSome := by
     unfold MachO.scan at e
     split at e
     · cases e
-    · omega
-  unfold MachO.readMagic at hle
-  simp only at hle
-  split at hle
-  · cases hle
-  · split at hle
+    · refine ⟨by omega, ?_⟩
+      split at e
+      · cases e
+      · rename_i hm; rw [hm]; rfl
+  have h4 : (f.take 4).length = 4 := by simp [List.length_take]; omega
+  rw [detect_machO_iff]
+  refine ⟨hc, hs, ht, ha, ?_⟩
+  have key : ∀ p : Bytes, p.length = 4 → f.take 4 = p → atPos f p 0 = true := by
+    intro p hp he
+    rw [atPos0_iff]; exact ⟨by rw [hp]; decide, by rw [hp]; exact he⟩
+  have hm := hl.2
+  unfold MachO.readMagic at hm
+  simp only at hm
+  split at hm
+  · rename_i hv
+    -- big-endian
+    have hcases : beVal (f.take 4) = 0xfeedface ∨ beVal (f.take 4) = 0xfeedfacf := by omega
+    have hb := be4_eq (f.take 4) h4
+    rcases hcases with hv' | hv'
+    · rw [hv'] at hb
+      have : atPos f pMacho32BE 0 = true := key _ rfl (by rw [hb]; decide)
+      simp [this]
+    · rw [hv'] at hb
+      have : atPos f pMacho64BE 0 = true := key _ rfl (by rw [hb]; decide)
+      simp [this]
+  · split at hm
     · rename_i hv
-      rw [detect_machO_iff]
-      refine ⟨hc, hs, ht, ha, ?_⟩
-      have h4 : (f.take 4).length = 4 := by simp [List.length_take]; omega
       have hcases : leVal (f.take 4) = 0xfeedface ∨ leVal (f.take 4) = 0xfeedfacf := by omega
-      have := Cab.leBytes_leVal (f.take 4)
-      rw [h4] at this
+      have hb := Cab.leBytes_leVal (f.take 4)
+      rw [h4] at hb
       rcases hcases with hv' | hv'
-      · rw [hv'] at this
-        have h32 : atPos f pMacho32 0 = true := by
-          rw [atPos0_iff]; refine ⟨by decide, ?_⟩
-          show f.take 4 = pMacho32
-          rw [← this]; decide
-        simp [h32]
-      · rw [hv'] at this
-        have h64 : atPos f pMacho64 0 = true := by
-          rw [atPos0_iff]; refine ⟨by decide, ?_⟩
-          show f.take 4 = pMacho64
-          rw [← this]; decide
-        simp [h64]
-    · cases hle
+      · rw [hv'] at hb
+        have : atPos f pMacho32 0 = true := key _ rfl (by rw [← hb]; decide)
+        simp [this]
+      · rw [hv'] at hb
+        have : atPos f pMacho64 0 = true := key _ rfl (by rw [← hb]; decide)
+        simp [this]
+    · cases hm
 
 /-! ### by file name: PowerShell, DMG; DEB, MSI by their first bytes -/
 
@@ -336,8 +346,7 @@ theorem detect_wf_msi (b : Cfb.Buf) (h : Cfb.Header) (e : Cfb.readHeader b = .ok
 
 /-! ### the exceptions (each accepted by the format model or plainly well-formed, each mis-detected) -/
 
-/-- a PE image with `e_lfanew = 4096` (a 4 KiB DOS stub): accepted by the PE model's `readHeaders`, Unknown to `Detect`,
-    hence "unknown filetype" without `--sig-type` -/
+/-- a PE image with `e_lfanew = 4096` (a 4 KiB DOS stub): accepted by the PE model's `readHeaders` -/
 def deepStubPE : Bytes :=
   [0x4d, 0x5a] ++ List.replicate 58 0 ++ [0, 0x10, 0, 0] ++ List.replicate 4032 0 ++
   [0x50, 0x45, 0, 0] ++ [0x4c, 0x01, 0, 0] ++ List.replicate 12 0 ++ [224, 0] ++ [0, 0] ++
@@ -345,9 +354,29 @@ def deepStubPE : Bytes :=
   List.replicate 128 0 ++ [1, 2, 3]
 
 set_option maxRecDepth 1000000 in
+/-- **the original 4096-byte reader (finding FM1).**  That image was Unknown to `Detect`, hence "unknown filetype" without
+    `--sig-type`; through the 65540-byte reader it is PE/COFF and dispatched to `pe-coff` -/
 theorem detect_wf_pe_exception_deep_stub :
-    (PE.readHeaders deepStubPE).isOk = true ∧ 64 ≤ PE.u32 deepStubPE 0x3c ∧ detect deepStubPE = .unknown ∧
-    byFile [120, 46, 101, 120, 101] [] deepStubPE none = .error .unknownType := by decide
+    (PE.readHeaders deepStubPE).isOk = true ∧ 64 ≤ PE.u32 deepStubPE 0x3c ∧ detectOrigFM1 deepStubPE = .unknown ∧
+    detect deepStubPE = .pecoff ∧ byFile [120, 46, 101, 120, 101] [] deepStubPE none = .ok sPe := by decide
+
+/-- what remains of FM1: the probe reads the 32-bit `e_lfanew` as 16 bits.  For every file with a complete DOS header the
+    offset it looks at is `e_lfanew mod 65536` — an image whose PE header starts at 64 KiB or later is probed in the wrong
+    place (relic's PE reader follows the full 32-bit value). -/
+theorem mz_probe_reads_low_half (f : Bytes) (h : 0x40 ≤ f.length) : reloc f = PE.u32 f 0x3c % 65536 := by
+  unfold reloc peekAny PE.u32 PE.seg
+  have e1 : List.drop 60 (List.take (min 62 bufSize) f) = (f.drop 60).take 2 := by
+    rw [List.drop_take]; rfl
+  have e2 : List.take (60 + 4 - 60) (List.drop 60 f) = (f.drop 60).take 4 := rfl
+  rw [e1, e2]
+  exact leVal_take2_mod _ (by simp [List.length_drop]; omega)
+
+set_option maxRecDepth 100000 in
+/-- the low half alone decides: `e_lfanew = 0x10040` with `PE\0\0` at 0x40 is PE/COFF to `Detect` although the PE reader,
+    which looks at 0x10040, finds the file too short -/
+theorem detect_wf_pe_exception_lfanew_32bit :
+    detect ([77, 90] ++ List.replicate 58 0 ++ [0x40, 0, 1, 0] ++ [80, 69, 0, 0]) = .pecoff ∧
+    PE.readHeaders ([77, 90] ++ List.replicate 58 0 ++ [0x40, 0, 1, 0] ++ [80, 69, 0, 0]) = .err "eof" := by decide
 
 /-- the same image as `C08.minimalPE` with the signedData OID in its (otherwise unused) DOS header: still accepted by the PE
     model, detected as PKCS#7 -/
@@ -359,11 +388,14 @@ theorem detect_wf_pe_exception_oid :
     (PE.readHeaders oidPE).isOk = true ∧ detect oidPE = .pkcs7 := by decide
 
 set_option maxRecDepth 100000 in
-/-- a big-endian Mach-O header passes `readMagic` (both byte orders are read) but is Unknown to `Detect` -/
+/-- **the original table (finding FM3).**  A big-endian Mach-O header passes `readMagic` (both byte orders are read) but was
+    Unknown to `Detect`; with the two magics added it is Mach-O -/
 theorem detect_wf_macho_exception_big_endian :
     MachO.readMagic [0xfe, 0xed, 0xfa, 0xcf, 0, 0, 0, 0] = some (true, 0xfeedfacf) ∧
-    detect ([0xfe, 0xed, 0xfa, 0xcf] ++ List.replicate 28 0) = .unknown ∧
-    detect ([0xfe, 0xed, 0xfa, 0xce] ++ List.replicate 24 0) = .unknown := by decide
+    detectOrigFM3 ([0xfe, 0xed, 0xfa, 0xcf] ++ List.replicate 28 0) = .unknown ∧
+    detectOrigFM3 ([0xfe, 0xed, 0xfa, 0xce] ++ List.replicate 24 0) = .unknown ∧
+    detect ([0xfe, 0xed, 0xfa, 0xcf] ++ List.replicate 28 0) = .machO ∧
+    detect ([0xfe, 0xed, 0xfa, 0xce] ++ List.replicate 24 0) = .machO := by decide
 
 set_option maxRecDepth 100000 in
 /-- a PowerShell script that mentions `$script:assembly…` within its first 256 bytes goes to the application-manifest
